@@ -41,6 +41,61 @@ theorem py_setter_eq (id : SetterId) (arg : Arg) (cfg : Config)
          · have : ¬ i ≤ 0 := by omega
            simp [runBody, runStmt, h0, this])
 
+/-- a sequence of setter calls on one of the front ends -/
+def runSetters (api : List Setter) : List (SetterId × Arg) → Config → Except Msg Config
+  | [], cfg => .ok cfg
+  | (id, a) :: rest, cfg =>
+    match applySetter api id a cfg with
+    | some (.ok cfg') => runSetters api rest cfg'
+    | some (.error m) => .error m
+    | none => runSetters api rest cfg
+
+/-- **C14 (call sequences)** any sequence of setter calls of the Python class (integer arguments non-negative) leaves the configuration the
+same calls leave in the library, or raises at the same call with the same message; together with `python_build` below: for every input
+and every sequence of setter calls the Python class returns the library's pattern in Python escape syntax -/
+theorem py_history_eq (ops : List (SetterId × Arg)) (cfg : Config)
+    (h : ∀ op ∈ ops, (∀ i, op.2 = .int i → 0 ≤ i) ∧ op.1 ≠ .syntaxHighlighting) :
+    runSetters pySetters ops cfg = runSetters rsSetters ops cfg := by
+  induction ops generalizing cfg with
+  | nil => rfl
+  | cons op rest ih =>
+    obtain ⟨id, a⟩ := op
+    have h1 := h (id, a) (List.mem_cons_self)
+    simp only [runSetters, py_setter_eq id a cfg h1.1 h1.2]
+    have ih' := fun cfg' => ih cfg' (fun op hop => h op (List.mem_cons_of_mem _ hop))
+    cases applySetter rsSetters id a cfg with
+    | none => exact ih' cfg
+    | some r => cases r with
+      | ok c => exact ih' c
+      | error m => rfl
+
+/-- no method of the Python class switches syntax highlighting on (it has none for it) -/
+theorem py_setter_keeps_colour (id : SetterId) (arg : Arg) (cfg c1 : Config)
+    (h : applySetter pySetters id arg cfg = some (.ok c1)) : c1.color = cfg.color := by
+  cases id <;> cases arg <;>
+    simp [applySetter, findSetter, pySetters, runBody, runStmt, Config.setBool, Config.setNat] at h
+  all_goals first
+    | (subst h; rfl)
+    | (rename_i n; by_cases hn : n ≤ 0
+       · simp [hn] at h
+       · simp [hn] at h; subst h; rfl)
+    | (rename_i b; cases b <;> simp at h <;> subst h <;> rfl)
+
+theorem py_history_no_colour (ops : List (SetterId × Arg)) (cfg c1 : Config) (hc : cfg.color = false)
+    (h : runSetters pySetters ops cfg = .ok c1) : c1.color = false := by
+  induction ops generalizing cfg with
+  | nil => simp only [runSetters, Except.ok.injEq] at h; subst h; exact hc
+  | cons op rest ih =>
+    obtain ⟨id, a⟩ := op
+    simp only [runSetters] at h
+    cases hs : applySetter pySetters id a cfg with
+    | none => rw [hs] at h; exact ih cfg hc h
+    | some r =>
+      rw [hs] at h
+      cases r with
+      | error m => cases h
+      | ok c => exact ih c (by rw [py_setter_keeps_colour id a cfg c hs]; exact hc) h
+
 /-- **C14 (errors)** a non-positive threshold raises `ValueError` with the library's message -/
 theorem py_nonpositive_min_rep (i : Int) (h : i ≤ 0) (cfg : Config) :
     applySetter pySetters .minRepetitions (.int i) cfg = some (.error .minRep) := by
